@@ -229,6 +229,48 @@ fn pseudo_history(reqs: &[RReq], kind: usize) -> History {
     }
 }
 
+/// For C19: a layout history replayed through the *typed* entry points of a builder whose
+/// resolver is the synthetic table `kind` (each shape is mapped to one of the table's types).
+/// Returns everything observable about the result as one text.
+pub fn typed_replay(h: &History, kind: usize) -> Result<String, String> {
+    let (map, _) = synth_table(kind);
+    let table = StaticTypeResolver::from(map);
+    let mut b: SynthBuilder = NativeRecordDefinitionBuilder::new(&table);
+    let mut issued: Vec<DatumId> = Vec::new();
+    for req in &h.reqs {
+        match req {
+            crate::hist::Req::Add { name, shape, uninit } => {
+                let ty = (shape.size * 3 + shape.align) % NTYPES;
+                let name = h.name_of(*name);
+                let id = if *uninit && COPY[ty] {
+                    with_copy_type!(ty, add_typed_uninit, &mut b, &name)?
+                } else if shape.size % 4 == 1 {
+                    let spelled = with_type!(ty, std_name,);
+                    b.add_dynamic_datum(name.as_str(), spelled.as_str())?
+                } else {
+                    with_type!(ty, add_typed, &mut b, &name)?
+                };
+                issued.push(id);
+            }
+            crate::hist::Req::Remove { k } => match issued.get(*k) {
+                Some(id) => b.remove_datum(*id)?,
+                None => return Err("no such issued id".to_owned()),
+            },
+            crate::hist::Req::RemoveRaw { .. } => return Err("raw removal".to_owned()),
+            crate::hist::Req::Close { strat } => close(&mut b, *strat),
+        }
+    }
+    let def = b.build();
+    Ok(format!(
+        "{:?}\n{} {}\n{}\n{}",
+        facts(&def),
+        def.max_size(),
+        def.max_type_align(),
+        def,
+        truc::generator::generate(&def, &truc::generator::config::GeneratorConfig::default())
+    ))
+}
+
 /// One differential case. Returns true when it ran to the end.
 fn differential(reqs: &[RReq], kind: usize, stats: &mut Stats, out: &mut Vec<Violation>) -> bool {
     let (map, infos) = synth_table(kind);
